@@ -76,6 +76,10 @@ pub fn documents(tier: Tier) -> Vec<A> {
     out.push(A::doc(vec![A::el(X, "a").decl("", X).child(A::pi("pi", Some("d"))).child(A::el(X, "pi")).child(A::pi("a", None))]));
     out.push(A::doc(vec![A::el("", "a").attr("", "k", "\u{c3}\u{a9}").child(A::text("\u{c3}\u{a9}\u{c2}\u{a0}x"))]));
     out.push(A::doc(vec![A::el("", "a").attr(XML_NS, "id", "i").child(A::el("", "b").attr(XML_NS, "id", "j")).child(A::el("", "c").attr(XML_NS, "id", "k l"))]));
+    // 3c. names beyond ASCII (spans must stay on character boundaries), comment / PI bodies with markup characters,
+    //     text with U+0085 / U+2028 (not line ends in XML 1.0)
+    out.push(A::doc(vec![A::el(X, "\u{3b1}\u{3b2}").decl("\u{e9}", X).attr(X, "\u{4e2d}", "\u{3b1}").attr("", "a-b.c", "1").child(A::pi("\u{e9}_1", Some("\u{3b1} ?> x".replace("?>", "? >").as_str()))).child(A::el("", "\u{10000}x").child(A::text("\u{85}\u{2028}")))]));
+    out.push(A::doc(vec![A::comment("<a>&amp;]]>"), A::el("", "a").child(A::comment("- -\n<")).child(A::pi("pi", Some("<?x? >&\n"))).child(A::text("x")), A::pi("pi", Some("]]>"))]));
     // 4. xml:id and xml:space
     out.push(A::doc(vec![A::el("", "a").attr(XML_NS, "id", "i").child(A::el("", "b").attr(XML_NS, "id", "j k").attr(XML_NS, "space", "preserve"))]));
     out.push(A::doc(vec![A::el("", "a").attr("", "id", " x  y ").attr(XML_NS, "id", "a b")]));
